@@ -2,6 +2,7 @@ import SciVerif.Lemmas.C18b
 import SciVerif.Lemmas.C18c
 import SciVerif.Lemmas.C18d
 import SciVerif.Lemmas.C18e
+import SciVerif.Lemmas.C18g
 
 /-!
 # C18 — DIP expressions compute unit-aware results under the documented priorities
@@ -48,14 +49,16 @@ theorem C18_numeric_partial (N : NumOps F) (av : A → QV F) (e : E A) (hw : e.W
       some (e.eval (numSem N) (numBinSem N) (numPreSem N) av) := by
   simp [E.solve, num_tk N av e hw, num_finish N av e hw]
 
-/-- Full statement (string level): solving the *rendered text* of a well-formed tree — parentheses
-    and function calls included, any number of optional blanks — gives the tree value.  Proved: the
-    token level (`C18_numeric_partial`) and the string level for the parenthesis-free fragment
-    (`C18_numeric_flat_partial`).  Missing: the argument scanner of parenthesis-type operators
-    (depth counting, separators) with the recursive solves; for those trees the driver solves the
-    rendered text and the tree's token list on every generated tree of every run and compares
-    ("tree" versus "model" result).  A prefix sign must not be the first token inside parentheses:
-    the argument text is stripped before it is solved, so ` - ` is not seen there. -/
+/-- Full statement (string level) on the renderer: solving `render e b` of a well-formed tree —
+    parentheses and function calls included, any number of optional blanks — gives the tree value.
+    Proved: the same statement on the text model `T.text` (`C18_numeric_nested_partial`: tokeniser,
+    argument scanner with depth counting and separators, recursive solves, step passes), under the
+    decidable side conditions `QuietN`.  Missing for this `def`: (i) the correspondence
+    `render e b = T.text t` with `t.toE = e` (every renderer output is such a text), (ii) deriving
+    `QuietN` from a description of atom texts (it is decided per text; the driver checks the
+    rendered text against the tree's token list on every generated tree of every run).  A prefix
+    sign must not be the first token inside parentheses: the argument text is stripped before it is
+    solved, so ` - ` is not seen there. -/
 def C18_numeric_statement : Prop :=
   ∀ (N : NumOps Rat) (atom : List Char → Option (QV Rat)) (e : E (List Char)) (b : List Nat),
     e.WF numGrammar →
@@ -100,6 +103,64 @@ theorem C18_logical_flat_partial (C : CmpOps F) (atom : List Char → Option (LV
       some (.atom (e.eval (logSem C) (logBinSem C) logPreSem av)) := by
   rw [solveStr_flat (logSem C) Generated.logTable Generated.logSteps atom fuel av (logEval C av) e hf hq ha]
   exact log_machine C av e hw
+
+/-- **Numerical expressions, string level, with parentheses and functions.**  For every text tree
+    `t` — atoms with any number of blanks around them, operator symbols of the regenerated table,
+    prefix signs, parentheses and one- and two-argument functions nested to any depth, with any number
+    of blanks before the symbol, inside the parentheses around every argument, around the argument
+    separator and after `)` — the real tokenisation loop, the argument scanner of parenthesis-type
+    operators (depth counting, separator at depth 1, closing parenthesis) and the recursive solves of
+    the arguments (fuel = length of the text) produce the tree's tokens, and the step passes solve
+    them to the tree value.  Side conditions `QuietN` (decidable for a concrete text): no operator
+    symbol starts inside an atom or a run of blanks, every symbol is the first table entry matching at
+    its position, every argument is balanced and starts and ends with a non-blank character (the
+    blanks around it are the node's), recursively for every argument as a text of its own.
+    This is `C18_numeric_statement` on the text model `T.text` instead of `render` (every `render`
+    output is such a text; that correspondence is not proved). -/
+theorem C18_numeric_nested_partial (N : NumOps F) (atom : List Char → Option (QV F))
+    (av : List Char → QV F) (t : T) (hw : t.toE.WF numGrammar)
+    (hq : t.QuietN Generated.numTable []) (ha : t.AtomsOK atom av) :
+    solveStr (numSem N) Generated.numTable Generated.numSteps atom
+        ((t.text Generated.numTable).length + 1) (t.text Generated.numTable) =
+      some (.atom (t.toE.eval (numSem N) (numBinSem N) (numPreSem N) av)) := by
+  rw [solve_nest (numSem N) Generated.numTable Generated.numSteps atom
+    (fun x => numEval N av x.toE) av t _ (T.depth_le_length Generated.numTable t) hq ha
+    (T.argsOK_of (numSem N) Generated.numSteps numGrammar (numEval N av) av numKeys
+      (fun e he => num_machine N av e he) t hw)]
+  rw [T.toks_toE]
+  exact num_machine N av t.toE hw
+
+/-- The renderer form: whenever the rendered text of a tree `e` is the text of a text tree `t` with
+    the same value (`t.toE` evaluates like `e`) that meets the side conditions, solving the
+    rendered text gives the value of `e`.  (Direct corollary; what `C18_numeric_statement` adds is
+    that such a `t` exists for every renderer output.) -/
+theorem C18_numeric_render_partial (N : NumOps F) (atom : List Char → Option (QV F))
+    (av : List Char → QV F) (e : E (List Char)) (b : List Nat) (t : T)
+    (htext : t.text Generated.numTable = (render (symOf Generated.numTable) false e b).1)
+    (hval : t.toE.eval (numSem N) (numBinSem N) (numPreSem N) av =
+      e.eval (numSem N) (numBinSem N) (numPreSem N) av)
+    (hw : t.toE.WF numGrammar) (hq : t.QuietN Generated.numTable []) (ha : t.AtomsOK atom av) :
+    let text := (render (symOf Generated.numTable) false e b).1
+    solveStr (numSem N) Generated.numTable Generated.numSteps atom (text.length + 1) text =
+      some (.atom (e.eval (numSem N) (numBinSem N) (numPreSem N) av)) := by
+  intro text
+  have := C18_numeric_nested_partial N atom av t hw hq ha
+  rw [htext, hval] at this
+  exact this
+
+/-- The same for logical expressions with parentheses nested to any depth. -/
+theorem C18_logical_nested_partial (C : CmpOps F) (atom : List Char → Option (LV F))
+    (av : List Char → LV F) (t : T) (hw : t.toE.WF logGrammar)
+    (hq : t.QuietN Generated.logTable []) (ha : t.AtomsOK atom av) :
+    solveStr (logSem C) Generated.logTable Generated.logSteps atom
+        ((t.text Generated.logTable).length + 1) (t.text Generated.logTable) =
+      some (.atom (t.toE.eval (logSem C) (logBinSem C) logPreSem av)) := by
+  rw [solve_nest (logSem C) Generated.logTable Generated.logSteps atom
+    (fun x => logEval C av x.toE) av t _ (T.depth_le_length Generated.logTable t) hq ha
+    (T.argsOK_of (logSem C) Generated.logSteps logGrammar (logEval C av) av logKeys
+      (fun e he => log_machine C av e he) t hw)]
+  rw [T.toks_toE]
+  exact log_machine C av t.toE hw
 
 /-- **Logical expressions, token level**: comparisons are evaluated first, then `~`, then `&&`,
     then `||` (each left to right), for every well-formed tree, on the regenerated tables. -/
@@ -249,9 +310,11 @@ theorem C18_numeric_units {K : Type} [Field K] (av : A → QV K)
 
 /-! ### templates -/
 
-/-- Full statement: the round trip below also for holes that carry a slice `[a:b,c]`
-    (needs the decimal rendering of the slice bounds); checked by the driver on every generated
-    template of every run, not proved. -/
+/-- Full statement: the round trip below also for holes that carry a slice `[a:b,c]`.  Not proved:
+    the model's `parseSlice` splits the slice text with `String.splitOn`, for which no lemmas are
+    available; proving it would need a list-based re-implementation of the splitter (a change of the
+    model, out of scope of a proof-only round).  Checked by the driver on every generated template
+    of every run. -/
 def C18_template_statement : Prop :=
   ∀ ps : List Piece, (∀ p ∈ ps, PieceOKS p) →
     scanTemplate ((ps.flatMap renderPieceS).length + 1) (ps.flatMap renderPieceS) = ps
@@ -275,6 +338,17 @@ example : (E.bin "add" (.lit (0 : Nat)) (.par (.bin "truediv" (.lit 1) (.lit 2))
 example : Agrees (some (⟨2, 100, [1]⟩ : Quant Rat)) ((some (⟨2, 100, [1]⟩ : Quant Rat)).map (Quant.toSI (fieldOps Rat))) :=
   ⟨by decide, rfl⟩
 example : ([1, 0] : Dims) ≠ [0, 1] := by decide
+/-- `"2 * pow( 1 m + 2 cm ,(1 + 1))  - sin(30 deg)"` satisfies the side conditions of the nested
+    string-level theorem (decided over the regenerated table) -/
+example : (T.bin "sub"
+      (T.bin "mul" (.lit "2".toList)
+        (.par2 "powb" 0 1 (.bin "add" (.lit "1 m".toList) (.lit "2 cm".toList)) 1 0
+          (.par "par" 0 0 (.bin "add" (.lit "1".toList) (.lit "1".toList)) 0 0) 0 1))
+      (.par "sin" 0 0 (.lit "30 deg".toList) 0 0)).QuietN Generated.numTable [] :=
+  T.quietN_of_B Generated.numTable _ [] (by decide +kernel)
+example : (T.par "par" 0 1 (.bin "or" (.lit "true ".toList) (.pre "not" (.par "par" 0 0 (.bin "eq" (.lit "{?a} ".toList)
+    (.lit " 2 m".toList)) 0 0))) 0 0).QuietN Generated.logTable [] :=
+  T.quietN_of_B Generated.logTable _ [] (by decide +kernel)
 /-- `"1 m  + 2 cm *  - 3"` satisfies the side conditions of the flat string-level theorem -/
 example : (E.bin "add" (.lit "1 m ".toList) (.bin "mul" (.lit "2 cm".toList) (.pre "sub" (.lit " 3".toList)))).QuietIn
     Generated.numTable [] := by
